@@ -61,10 +61,11 @@ type Field struct {
 	Name   string
 	Elem   Elem
 	Wrap   Wrap
-	Key    Kind // map key kind
-	Number int  // effective field number
-	Tagged bool // carries a protobuf struct tag
-	Skip   bool // unexported field (not part of the message)
+	Key    Kind   // map key kind
+	KeyEnc string // map key encoding (protobuf_key tag): zigzag32, zigzag64, fixed32, fixed64
+	Number int    // effective field number
+	Tagged bool   // carries a protobuf struct tag
+	Skip   bool   // unexported field (not part of the message)
 }
 
 // Msg is a message type description together with the Go type built from it.
@@ -87,6 +88,13 @@ func (e Elem) String() string {
 	return s
 }
 
+func (f Field) keyEncSuffix() string {
+	if f.KeyEnc != "" {
+		return "/" + f.KeyEnc
+	}
+	return ""
+}
+
 func (f Field) String() string {
 	s := f.Elem.String()
 	switch f.Wrap {
@@ -97,9 +105,9 @@ func (f Field) String() string {
 	case SlicePtr:
 		s = "[]*" + s
 	case MapVal:
-		s = "map[" + kindNames[f.Key] + "]" + s
+		s = "map[" + kindNames[f.Key] + f.keyEncSuffix() + "]" + s
 	case MapValPtr:
-		s = "map[" + kindNames[f.Key] + "]*" + s
+		s = "map[" + kindNames[f.Key] + f.keyEncSuffix() + "]*" + s
 	}
 	if f.Skip {
 		return "unexported " + s
@@ -236,11 +244,11 @@ func (f *Field) GoType() reflect.Type {
 
 // naturalWire is the tag wire name that leaves the codec unchanged.
 func (f *Field) tagWire() string {
-	if f.Elem.Enc != "" {
-		return f.Elem.Enc
-	}
 	if f.Wrap == MapVal || f.Wrap == MapValPtr {
 		return "bytes"
+	}
+	if f.Elem.Enc != "" {
+		return f.Elem.Enc
 	}
 	switch f.Elem.Kind {
 	case Bool, Int, Int32, Int64, Uint, Uint32, Uint64:
@@ -265,7 +273,7 @@ func (m *Msg) Build() *Msg {
 		if f.Skip {
 			s.Name = fmt.Sprintf("x%d", i)
 			s.PkgPath = "verif/mc/gen/pgen"
-		} else if f.Tagged || f.Elem.Enc != "" {
+		} else if f.Tagged || f.Elem.Enc != "" || f.KeyEnc != "" {
 			tag := fmt.Sprintf("%s,%d", f.tagWire(), f.Number)
 			switch f.Wrap {
 			case Slice, SlicePtr, MapVal, MapValPtr:
@@ -275,6 +283,11 @@ func (m *Msg) Build() *Msg {
 			}
 			tag += ",name=" + strings.ToLower(f.Name)
 			s.Tag = reflect.StructTag(fmt.Sprintf(`protobuf:"%s"`, tag))
+			if (f.Wrap == MapVal || f.Wrap == MapValPtr) && (f.Elem.Enc != "" || f.KeyEnc != "") {
+				// the key and value encodings of a map field, as protoc-gen-go writes them
+				kf, vf := Field{Elem: Elem{Kind: f.Key, Enc: f.KeyEnc}}, Field{Elem: f.Elem}
+				s.Tag += reflect.StructTag(fmt.Sprintf(` protobuf_key:"%s,1,opt,name=key" protobuf_val:"%s,2,opt,name=value"`, kf.tagWire(), vf.tagWire()))
+			}
 		}
 		sf = append(sf, s)
 	}
@@ -300,7 +313,7 @@ func (m *Msg) assignNumbers(pattern int) {
 		// TypeOf refuses structs that mix tagged and untagged fields: when a
 		// field needs a tag for its encoding, tag them all (same numbers).
 		for _, f := range m.Fields {
-			if !f.Skip && f.Elem.Enc != "" {
+			if !f.Skip && (f.Elem.Enc != "" || f.KeyEnc != "") {
 				nums = []int{1, 2, 3, 4}
 			}
 		}
@@ -400,10 +413,13 @@ func enc(k Kind, e string) Elem { return Elem{Kind: k, Enc: e} }
 func arr(n int) Elem            { return Elem{Kind: ByteArray, N: n} }
 func fld(e Elem, w Wrap) Field  { return Field{Elem: e, Wrap: w, Key: String} }
 func mp(k Kind, e Elem) Field   { return Field{Elem: e, Wrap: MapVal, Key: k} }
-func mpp(k Kind, e Elem) Field  { return Field{Elem: e, Wrap: MapValPtr, Key: k} }
-func msgOf(fs ...Field) *Msg    { m := &Msg{Fields: fs}; m.assignNumbers(0); return m.Build() }
-func msgElem(fs ...Field) Elem  { return Elem{Kind: Message, Msg: msgOf(fs...)} }
-func unexported(e Elem) Field   { return Field{Elem: e, Skip: true} }
+func mpk(k Kind, ke string, e Elem) Field {
+	return Field{Elem: e, Wrap: MapVal, Key: k, KeyEnc: ke}
+}
+func mpp(k Kind, e Elem) Field { return Field{Elem: e, Wrap: MapValPtr, Key: k} }
+func msgOf(fs ...Field) *Msg   { m := &Msg{Fields: fs}; m.assignNumbers(0); return m.Build() }
+func msgElem(fs ...Field) Elem { return Elem{Kind: Message, Msg: msgOf(fs...)} }
+func unexported(e Elem) Field  { return Field{Elem: e, Skip: true} }
 
 var baseScalars = []Elem{sc(Int32), sc(String), sc(Bool), sc(Bytes), sc(Int64), sc(Uint64), sc(Float64), sc(Int), sc(Uint), sc(Uint32), sc(Float32), arr(8), arr(1), arr(9)}
 
@@ -455,6 +471,7 @@ func Palette(size int) []Field {
 			p = append(p, fld(e, Slice))
 		}
 		p = append(p, mp(String, sc(Int32)), mp(String, sc(String)), mp(Int32, sc(Bytes)), mp(Bool, sc(Bool)), mp(Uint64, sc(Float64)), mp(Int64, sc(String)))
+		p = append(p, mpk(Int32, "zigzag32", enc(Int64, "zigzag64")), mpk(Uint32, "fixed32", enc(Int64, "fixed64")))
 		for _, w := range structWraps {
 			p = append(p, fld(inner[0], w), fld(inner[2], w), fld(inner[3], w))
 		}
@@ -486,6 +503,12 @@ func Palette(size int) []Field {
 			p = append(p, mp(k, sc(String)), mp(k, sc(Int32)))
 		}
 		p = append(p, mp(Uint64, sc(Bytes)), mp(Bool, sc(Bool)), mpp(String, sc(Int32)))
+		// sint / fixed keys and values (protobuf_key / protobuf_val tags)
+		p = append(p, mp(String, enc(Int32, "zigzag32")), mp(String, enc(Int64, "zigzag64")), mp(String, enc(Uint32, "fixed32")), mp(String, enc(Uint64, "fixed64")),
+			mp(String, enc(Int32, "fixed32")), mp(String, enc(Int64, "fixed64")), mp(Int32, enc(Int, "zigzag64")),
+			mpk(Int32, "zigzag32", sc(String)), mpk(Int64, "zigzag64", sc(Int32)), mpk(Uint32, "fixed32", sc(String)), mpk(Uint64, "fixed64", sc(Bool)),
+			mpk(Int32, "fixed32", sc(Int32)), mpk(Int64, "fixed64", sc(Bytes)), mpk(Int32, "zigzag32", enc(Int64, "zigzag64")), mpk(Uint32, "fixed32", enc(Uint64, "fixed64")),
+			mpk(Int64, "zigzag64", inner[0]))
 		for _, w := range structWraps {
 			for _, in := range inner {
 				f := fld(in, w)
